@@ -511,6 +511,7 @@ func checkC11(p *core.Program, r *core.Report) {
 	r.Rule("O11.1", "writer and reader section sequences coincide (fields, order, width, endianness)")
 	r.Rule("O11.2", "every I/O error in the writers and the reader propagates on every path")
 	r.Rule("O11.4", "the reader refuses a file only on read/decode failures (or defensive tests on their results), never on a condition over the decoded depth / batch size")
+	r.Rule("O11.5", "a loader that opens a file lets the decoder read the file itself or a buffer holding the whole stream, not a buffer sized before reading (Stat)")
 	r.Rule("O11.3", "CLI: persisting commands write the right system with a ProvingSystem writer to the --output file; reading commands use the loader")
 	r.Trusted = append(r.Trusted, "gnark WriteTo/WriteRawTo output is accepted by UnsafeReadFrom/ReadFrom in both encodings", "encoding/binary")
 	r.NotDecided = append(r.NotDecided, "equality of keys and constraint system after reload", "gnark's own encoders/decoders")
@@ -662,6 +663,8 @@ func checkC11(p *core.Program, r *core.Report) {
 
 	// O11.4: the reader adds no precondition on the stored dimensions
 	checkReaderRefusals(p, r, append(append([]flow.FuncUnit{}, readers...), readerParts...))
+	checkLoaderStreams(p, r)
+	r.Floor("file loader decode sites", 1)
 	// reader: section objects constructed for BN254
 	for _, rd := range append(append([]flow.FuncUnit{}, readers...), readerParts...) {
 		info := rd.Pkg.TypesInfo
@@ -983,4 +986,195 @@ func readsHeaderValue(v ssa.Value, recv ssa.Value, seen map[ssa.Value]bool) stri
 		}
 	}
 	return ""
+}
+
+// checkLoaderStreams (O11.5): a loader that opens a file hands the reader method either the file itself (possibly behind
+// bufio/Tee) or a buffer that holds the whole stream (io.ReadAll, os.ReadFile, bytes.Buffer.ReadFrom). A buffer whose size
+// is fixed before reading — typically from file.Stat().Size() — restores the system from a regular file but not from a
+// pipe, a process substitution or /dev/stdin (size 0), and not from a file that is still growing.
+func checkLoaderStreams(p *core.Program, r *core.Report) {
+	ix := indexFuncs(p)
+	li := findLoaders(p, ix)
+	if li.ps == nil {
+		return
+	}
+	isReaderMethod := func(f *ssa.Function) bool {
+		if f == nil || f.Signature.Recv() == nil || namedOf(f.Signature.Recv().Type()) != li.ps {
+			return false
+		}
+		for i := 0; i < f.Signature.Params().Len(); i++ {
+			if isIOReader(f.Signature.Params().At(i).Type()) {
+				return true
+			}
+		}
+		return false
+	}
+	for _, l := range li.loaders {
+		obj, _ := l.Pkg.TypesInfo.Defs[l.Node.(*ast.FuncDecl).Name].(*types.Func)
+		fn := p.SSA.FuncValue(obj)
+		if fn == nil {
+			continue
+		}
+		opensFile := false
+		var sites []*ssa.Call
+		var scan func(f *ssa.Function)
+		seen := map[*ssa.Function]bool{}
+		scan = func(f *ssa.Function) {
+			if seen[f] {
+				return
+			}
+			seen[f] = true
+			for _, b := range f.Blocks {
+				for _, in := range b.Instrs {
+					c, ok := in.(*ssa.Call)
+					if !ok {
+						continue
+					}
+					callee := c.Common().StaticCallee()
+					if callee == nil {
+						continue
+					}
+					switch callee.String() {
+					case "os.Open", "os.OpenFile", "os.ReadFile", "io/ioutil.ReadFile":
+						opensFile = true
+					}
+					if isReaderMethod(callee) {
+						sites = append(sites, c)
+					}
+				}
+			}
+			for _, a := range f.AnonFuncs {
+				scan(a)
+			}
+		}
+		scan(fn)
+		if !opensFile {
+			continue
+		}
+		for _, c := range sites {
+			var rd ssa.Value
+			for _, a := range c.Common().Args[1:] {
+				if isIOReader(a.Type()) {
+					rd = a
+				}
+			}
+			if rd == nil {
+				continue
+			}
+			r.Count("file loader decode sites", 1)
+			cn := l.Name + ": reader handed to " + c.Common().StaticCallee().Name()
+			kind, why := loaderReaderKind(rd, 0)
+			switch kind {
+			case "stream":
+				r.OK("O11.5", cn, p.Pos(c.Pos()), "the decoder reads the opened file itself (%s): it consumes whatever the file delivers until the last section", why)
+			case "whole":
+				r.OK("O11.5", cn, p.Pos(c.Pos()), "the decoder reads a buffer holding the whole stream (%s)", why)
+			case "fixed":
+				r.Violation("O11.5", cn, p.Pos(c.Pos()), "the decoder reads a buffer whose size was fixed before reading (%s): a system written to a pipe, a process substitution or a file still being written is not restored although every byte is delivered", why)
+			default:
+				r.Undecided("O11.5", cn, p.Pos(c.Pos()), "cannot tell where the reader comes from: %s", why)
+			}
+		}
+	}
+}
+
+func loaderReaderKind(v ssa.Value, depth int) (string, string) {
+	if depth > 8 {
+		return "unknown", "chain too long"
+	}
+	switch x := v.(type) {
+	case *ssa.MakeInterface:
+		return loaderReaderKind(x.X, depth+1)
+	case *ssa.ChangeInterface:
+		return loaderReaderKind(x.X, depth+1)
+	case *ssa.Phi:
+		kind, why := "", ""
+		for _, e := range x.Edges {
+			k, w := loaderReaderKind(e, depth+1)
+			if k != "stream" && k != "whole" {
+				return k, w
+			}
+			kind, why = k, w
+		}
+		return kind, why
+	case *ssa.UnOp:
+		if al, ok := x.X.(*ssa.Alloc); ok && x.Op == token.MUL {
+			kind, why := "unknown", "cell never assigned"
+			for _, ref := range *al.Referrers() {
+				if st, ok := ref.(*ssa.Store); ok && st.Addr == ssa.Value(al) {
+					k, w := loaderReaderKind(st.Val, depth+1)
+					if k != "stream" && k != "whole" {
+						return k, w
+					}
+					kind, why = k, w
+				}
+			}
+			return kind, why
+		}
+	case *ssa.Extract:
+		if c, ok := x.Tuple.(*ssa.Call); ok && x.Index == 0 {
+			return loaderReaderKind(c, depth+1)
+		}
+	case *ssa.Call:
+		callee := x.Common().StaticCallee()
+		if callee == nil {
+			return "unknown", "dynamic call"
+		}
+		switch callee.String() {
+		case "os.Open", "os.OpenFile":
+			return "stream", callee.String()
+		case "bufio.NewReader", "bufio.NewReaderSize", "io.TeeReader", "io.NopCloser":
+			k, w := loaderReaderKind(x.Common().Args[0], depth+1)
+			if k == "stream" {
+				w = callee.Name() + " over " + w
+			}
+			return k, w
+		case "io.LimitReader", "io.NewSectionReader":
+			return "fixed", callee.String() + " bounds the bytes the decoder may see"
+		case "bytes.NewReader", "bytes.NewBuffer":
+			k, w := wholeInput(x.Common().Args[0], depth+1)
+			switch k {
+			case "whole":
+				return "whole", w
+			case "partial":
+				return "fixed", w
+			}
+			// a make()d buffer filled by Read/ReadFull: its size was chosen before the data was seen
+			if ms := makeSliceOf(x.Common().Args[0]); ms != nil {
+				sz := "a size computed beforehand"
+				if fromStatSize(ms.Len, 0) {
+					sz = "the size reported by Stat()"
+				}
+				return "fixed", "make([]byte, n) with n = " + sz
+			}
+			return "unknown", w
+		}
+		return "unknown", "result of " + callee.String()
+	}
+	return "unknown", fmt.Sprintf("%s (%T)", v.Name(), v)
+}
+
+func makeSliceOf(v ssa.Value) *ssa.MakeSlice {
+	switch x := v.(type) {
+	case *ssa.MakeSlice:
+		return x
+	case *ssa.Slice:
+		return makeSliceOf(x.X)
+	}
+	return nil
+}
+
+func fromStatSize(v ssa.Value, depth int) bool {
+	if depth > 6 || v == nil {
+		return false
+	}
+	switch x := v.(type) {
+	case *ssa.Convert:
+		return fromStatSize(x.X, depth+1)
+	case *ssa.BinOp:
+		return fromStatSize(x.X, depth+1) || fromStatSize(x.Y, depth+1)
+	case *ssa.Call:
+		return x.Common().IsInvoke() && x.Common().Method.Name() == "Size"
+	}
+	return false
 }
